@@ -232,6 +232,7 @@ class Ctor:
     call_as: str = ""
     bound_as: dict = dataclasses.field(default_factory=dict)
     tyvars: tuple = ()
+    locals: dict = dataclasses.field(default_factory=dict)   # sheets with `CTOR_STATEMENTS`: declared type of a local first bound to `[]`
 
 
 @dataclasses.dataclass
@@ -319,6 +320,7 @@ class Tr:
         self.ctor_fields = None         # inside a `Ctor`: attribute name -> V of the `self.<f>` assigned so far
         self.early_types = []                 # types of the values returned early (`if <e> is None: return r`)
         self.whole_body = False         # True while the statements of the function's own body (not of a branch) are translated
+        self.ctor_ftypes = None         # inside a `Ctor` of a sheet with `CTOR_STATEMENTS`: attribute -> type; `self.<f>` lives in `env["self.<f>"]`
 
     # ------------------------------------------------------------------ helpers
     @property
@@ -338,6 +340,8 @@ class Tr:
     def lname(self, name):
         if name == "self":
             return "self_"
+        if name.startswith("self.") and self.ctor_ftypes is not None and name[5:] in self.ctor_ftypes:
+            return "self_" + name[5:]     # the attribute `self.<f>` of a `Ctor` (sheets with `CTOR_STATEMENTS`)
         if name in LEAN_KEYWORDS or re.fullmatch(r"[tv]\d+|raises|self_", name):
             raise Refuse(f"variable name `{name}` clashes with a reserved name of the translation")
         return name
@@ -575,6 +579,26 @@ class Tr:
                     ety = t
                     parts.append(code)
                 return V(L(ety), " ++ ".join(parts))
+            elif any(isinstance(e, ast.Starred) for e in n.elts):
+                # `[a, *xs, b]` (sheets with `STARRED_LIST_DISPLAY`): the concatenation, `xs` a list of the element type
+                if not getattr(self.sheet, "STARRED_LIST_DISPLAY", False):
+                    raise Refuse("starred element in a list display")
+                segs = [(True, self.lean(self.ex(e.value))) if isinstance(e, ast.Starred) else (False, self.lean(self.ex(e))) for e in n.elts]
+                tys = {(v.ty[1] if (isinstance(v.ty, tuple) and v.ty[0] == "List") else None) if st else v.ty for st, v in segs}
+                if len(tys) != 1 or None in tys:
+                    raise Refuse("list display with a starred element that is not a list of the element type")
+                chunks, cur = [], []
+                for st, v in segs:
+                    if st:
+                        if cur:
+                            chunks.append("[" + ", ".join(cur) + "]")
+                            cur = []
+                        chunks.append(paren(v.code))
+                    else:
+                        cur.append(v.code)
+                if cur:
+                    chunks.append("[" + ", ".join(cur) + "]")
+                return V(L(tys.pop()), " ++ ".join(chunks))
             items = [self.lean(self.ex(e)) for e in n.elts]
             up = getattr(self.sheet, "UPCAST", {})
             if any(x.ty != items[0].ty for x in items) and all(x.ty in up for x in items):
@@ -660,6 +684,8 @@ class Tr:
                 parts.append(("elt", v.code))
             else:
                 shape_like = False
+        if shape_like and len(parts) == 2 and all(k == "elt" for k, _ in parts) and getattr(self.sheet, "NAT_PAIRS_ARE_TUPLES", False):
+            shape_like = False            # `(b0, b1)`: a pair of ints (a block shape), not an array shape
         if shape_like:
             chunks, cur = [], []
             for k, c in parts:
@@ -1149,6 +1175,9 @@ class Tr:
         if self.env.get(name) is not None and self.env[name].kind == "fn":
             raise Refuse(f"`{name}` rebinds a nested function")
         for key in [k for k in self.narrow if re.search(rf"\b{re.escape(name)}\b", k)]:
+            if getattr(self.sheet, "NARROW_JOIN", False) and key == name:
+                del self.narrow[key]      # the right-hand side is already evaluated; the refinement of the OLD value is dropped
+                continue
             raise Refuse(f"`{name}` is reassigned while `{key}` is narrowed")
         if v.kind == "dict":
             self.env[name] = v
@@ -1514,9 +1543,27 @@ class Tr:
             self.narrow[narrow[0]] = narrow[1]
         try:
             self.block(body, in_branch=True)
-            return self.blk, self.env
+            return self.blk, self.env, dict(self.narrow)
         finally:
             self.blk, self.env, self.narrow = saved
+
+    def isinstance_test(self, t):
+        """`isinstance(<name>, <Class>)` on a value of a SUM type the sheet declares (`ISINSTANCE[type] = (class name, (constructor of
+        the instances, their type), (constructor of everything else, its type))`) -> (name, V, yes, no); None for any other test"""
+        table = getattr(self.sheet, "ISINSTANCE", None)
+        if not (table and isinstance(t, ast.Call) and isinstance(t.func, ast.Name) and t.func.id == "isinstance"):
+            return None
+        if "isinstance" in self.env or "isinstance" not in self.sheet.BUILTINS:
+            raise Refuse("`isinstance` is not the builtin here")
+        if len(t.args) != 2 or t.keywords or not isinstance(t.args[0], ast.Name) or not isinstance(t.args[1], ast.Name):
+            raise Refuse(f"`{ast.unparse(t)[:60]}`: isinstance other than `isinstance(<name>, <Class>)`")
+        v = self.lean(self.ex(t.args[0]))
+        spec = table.get(v.ty)
+        if spec is None or spec[0] != t.args[1].id or t.args[1].id in self.env or t.args[1].id not in self.sheet.IMPORTS:
+            raise Refuse(f"`{ast.unparse(t)[:60]}`: no declared sum type of {v.ty} is split by this class")
+        self.gen.need(self.fn.file, "isinstance")
+        self.gen.need(self.fn.file, t.args[1].id)
+        return t.args[0].id, v, spec[1], spec[2]
 
     def do_if(self, st):
         if self.is_guard(st):
@@ -1527,7 +1574,15 @@ class Tr:
             if any(is_nar(t) for t in conj):
                 return self.do_if_and(st, conj)
         nar = self.narrow_test(st.test)
-        if nar is not None:
+        inst = self.isinstance_test(st.test) if nar is None else None
+        if inst is not None:
+            # `if isinstance(x, C): A else: B` on a declared sum: a `match`, `x` refined in both branches
+            key, xv, (yes_ctor, yes_ty), (no_ctor, no_ty) = inst
+            v1, v2 = self.tmp("v"), self.tmp("v")
+            r1 = self.branch(st.body, narrow=(key, V(yes_ty, v1)))
+            r2 = self.branch(st.orelse, narrow=(key, V(no_ty, v2)))
+            heads = (f"match {xv.code} with | {yes_ctor} {v1} => ", f" | {no_ctor} {v2} => ")
+        elif nar is not None:
             key, ov, is_none = nar
             var = self.tmp("v")
             some_nar = (key, V(ov.ty[1], var))
@@ -1546,6 +1601,13 @@ class Tr:
             a, b = r1[1].get(nm), r2[1].get(nm)
             if a is before.get(nm) and b is before.get(nm):
                 continue   # untouched by both branches
+            if getattr(self.sheet, "NARROW_JOIN", False):
+                # a branch that leaves `nm` alone but has REFINED it (`x is not None`, `isinstance(x, C)`) contributes the refined value
+                # (the same object, at the type the test established) to the join with a branch that assigns it
+                for r in (r1, r2):
+                    if r[1].get(nm) is before.get(nm) and nm in r[2] and before.get(nm) is not None:
+                        r[1][nm] = r[2][nm]
+                a, b = r1[1].get(nm), r2[1].get(nm)
             if a is None or b is None or a.kind != "lean" or b.kind != "lean" or a.ty != b.ty:
                 if nm in self.env:
                     del self.env[nm]   # assigned on one path only / with different types: undefined afterwards
@@ -1767,7 +1829,14 @@ class Tr:
             last = i == len(stmts) - 1
             if isinstance(st, ast.Expr) and isinstance(st.value, ast.Constant) and isinstance(st.value.value, str):
                 continue
-            if isinstance(st, ast.Assign):
+            if isinstance(st, ast.Assign) and self.ctor_ftypes is not None and len(st.targets) == 1 and isinstance(st.targets[0], ast.Attribute) \
+                    and isinstance(st.targets[0].value, ast.Name) and st.targets[0].value.id == "self":
+                # `self.<f> = e` anywhere in a `Ctor` body (sheets with `CTOR_STATEMENTS`): at most once on every path; joined like a variable
+                f = st.targets[0].attr
+                if f not in self.ctor_ftypes or ("self." + f) in self.env:
+                    raise Refuse(f"`__init__` assigns `self.{f}` (twice on a path, or not an attribute of the sheet)")
+                self.bind_name("self." + f, self.coerce(self.ex(st.value), self.ctor_ftypes[f]))
+            elif isinstance(st, ast.Assign):
                 self.do_assign(st)
             elif top and not self.early and self.is_early_none_return(st):
                 self.do_early_none_return(st)
@@ -2095,7 +2164,7 @@ class Gen:
     def do_ctor(self, c):
         """`__init__` statement by statement; the result is the world's structure `c.ty` built with named fields"""
         node = self.find(c.file, c.name + ".__init__")
-        fn = Fn(c.file, c.name + ".__init__", c.lean, c.init_params, binders=c.binders, tyvars=c.tyvars)
+        fn = Fn(c.file, c.name + ".__init__", c.lean, c.init_params, binders=c.binders, tyvars=c.tyvars, locals=dict(c.locals))
         tr = Tr(self, fn, node, c.lean, c.init_params)
         tr.check_signature(node, True)
         if node.decorator_list:
@@ -2103,6 +2172,18 @@ class Gen:
         tr.enter()
         tr.ctor_fields = {}
         ftypes = dict(c.fields)
+        statements = bool(getattr(self.sheet, "CTOR_STATEMENTS", False))
+        if statements:
+            # every statement form of the (EXTENDED) subset; `self.<f> = e` may sit in branches (see `Tr.block`); `self.<f>` is never read
+            for x in ast.walk(node):
+                if isinstance(x, (ast.Return, ast.Try, ast.While, ast.With, ast.Global, ast.Nonlocal, ast.Delete)):
+                    raise Refuse(f"`{type(x).__name__.lower()}` in `__init__`")
+            tr.ctor_ftypes = ftypes
+            tr.block(node.body)
+            missing = sorted(f for f in ftypes if ("self." + f) not in tr.env)
+            if missing:
+                raise Refuse(f"`__init__` does not assign the attributes {missing} on every path")
+            tr.ctor_fields = {f: tr.env["self." + f] for f in ftypes}
 
         def set_field(f, v):
             if f in tr.ctor_fields or f not in ftypes:
@@ -2113,7 +2194,7 @@ class Gen:
         def is_self_attr(t):
             return isinstance(t, ast.Attribute) and isinstance(t.value, ast.Name) and t.value.id == "self"
 
-        for st in node.body:
+        for st in ([] if statements else node.body):
             if isinstance(st, ast.Expr) and isinstance(st.value, ast.Constant) and isinstance(st.value.value, str):
                 continue
             if not (isinstance(st, ast.Assign) and len(st.targets) == 1):
@@ -2314,7 +2395,7 @@ class Gen:
         return {"text": text, "errors": errors, "targets": [i.lean for i in sheet.ITEMS]}
 
 
-SHEETS = ["targets_losses", "targets_dist_public", "targets_jaxtr", "targets_families", "targets_bnafnet", "targets_net", "targets_unwrap", "targets_bisectgen", "targets_merge"]
+SHEETS = ["targets_losses", "targets_dist_public", "targets_jaxtr", "targets_families", "targets_bnafnet", "targets_net", "targets_unwrap", "targets_bisectgen", "targets_merge", "targets_bnafinit", "targets_planarinit"]
 
 
 def generate(repo: str) -> dict:
